@@ -174,7 +174,8 @@ class Impl:
                             paused=bool(getattr(s, '_paused', False)),
                             db=s._db_num, tx='-' if s._transaction is None else str(len(s._transaction)),
                             failed=s._transaction_failed, wn=s._watch_notified,
-                            watch=sorted({'%d/%s' % (dbidx[id(d)], k.hex()) for (k, d) in s._watches}),
+                            watch=sorted({'%d/%s' % (dbidx.get(id(d), -1), k.hex()) for (k, d) in s._watches}),
+                            stale=(not (c in self.closed) and s._db is not None and self.srv.dbs.get(s._db_num) is not s._db),
                             pubsub=s._pubsub, closed=c in self.closed, dead=s._parser.gi_frame is None)
         return dict(dbs=dbs, tables=tables, conns=conns, lastsave=self.srv.lastsave, connected=self.srv.connected,
                     now=self.now_ticks())
@@ -200,7 +201,7 @@ def render_snapshot(st):
     for c, x in sorted(st['conns'].items()):
         parts.append('c%d{db=%d,tx=%s,failed=%s,wn=%s,watch=%s,pubsub=%d,closed=%s,dead=%s,parked=%s}' % (
             c, x['db'], x['tx'], b(x['failed']), b(x['wn']), '+'.join(x['watch']), x['pubsub'], b(x['closed']), b(x['dead']),
-            x.get('parked', '-') + (',paused' if x.get('paused') else '')))
+            x.get('parked', '-') + (',paused' if x.get('paused') else '') + (',STALE-DATABASE-OBJECT' if x.get('stale') else '')))
     parts.append('lastsave=%d' % st['lastsave'])
     parts.append('connected=%s' % b(st['connected']))
     return 'S ' + ' '.join(parts)
